@@ -204,6 +204,15 @@ class AccessControl:
         """
         self.config = config or AccessControlConfig()
 
+        # A scoped entry ("fe80::1%eth0") cannot be honoured: networks are compared
+        # without the zone, so it would match that address on every link. Refuse it
+        # like any other entry that cannot be interpreted.
+        for cidr in [*(self.config.allow_list or []), *(self.config.deny_list or [])]:
+            if "%" in str(cidr):
+                raise ValueError(
+                    f"Scoped address not supported in access lists: {cidr!r}"
+                )
+
         # Parse allow list
         self.allow_networks: list[IPv4Network | IPv6Network] = []
         if self.config.allow_list:
